@@ -21,7 +21,25 @@ F = {
  "F1": dict(cls="dpor-atomic-single-slot",
    what="interleaving outcome never explored: a thread's own access overwrites the single last-access slot of an atomic, so its later store never races with another thread's earlier load (rt/atomic.rs set_last_access, rt/execution.rs schedule)",
    entries=[("C01", "missing", "cfg x=1 | T0: spawn 1; st 0 1 rlx; ld 0 rlx; join 1 | T1: ld 0 rlx; st 0 2 rlx",
-             "ok 0:0=- 0:1=- 0:2=v:2 0:3=- 1:0=v:1 1:1=-")]),
+             "ok 0:0=- 0:1=- 0:2=v:2 0:3=- 1:0=v:1 1:1=-"),
+            ("C02", "missing", "cfg x=1 | T0: spawn 1; st 0 1 rlx; ld 0 rlx; join 1 | T1: ld 0 rlx; st 0 2 rlx",
+             "ok 0:0=- 0:1=- 0:2=v:2 0:3=- 1:0=v:1 1:1=-", "rc11-strong")]),
+ "F2": dict(cls="fence-acquire-over-sync",
+   what="fence(Acquire) acquires from every store seen by a thread that happens-before the fencing thread, not only from stores the fencing thread read: an RC11-allowed outcome is never explored (rt/atomic.rs fence_acq, FirstSeen::is_seen_by_current)",
+   entries=[("C02", "missing", "cfg x=3 | T0: spawn 1; spawn 2; st 1 1 rlx; st 0 1 rel; join 1; join 2 | T1: ld 0 rlx; st 2 1 rel | T2: ld 2 acq; fence acq; ld 1 rlx",
+             "ok 0:0=- 0:1=- 0:2=- 0:3=- 0:4=- 0:5=- 1:0=v:1 1:1=- 2:0=v:1 2:1=- 2:2=v:0", "rc11-strong")]),
+ "F3": dict(cls="coherence-clock-order",
+   what="a value older than one that happens-before the read is returned: reading an old store raises its modification-order clock past a newer store's (pointwise clock order is not the modification order, rt/atomic.rs apply_load_coherence)",
+   entries=[("C03", "forbidden", "cfg x=1 | T0: spawn 1; st 0 1 rlx; st 0 2 rlx; join 1; ld 0 rlx | T1: st 0 3 rlx; ld 0 rlx",
+             "ok 0:0=- 0:1=- 0:2=- 0:3=- 0:4=v:1 1:0=- 1:1=v:1", "rc11-doc")]),
+ "F4": dict(cls="rmw-atomicity",
+   what="lost update: a store is ordered between an RMW and the store it read (the later store is left unordered with the RMW's store, rt/atomic.rs State::rmw/store)",
+   entries=[("C03", "forbidden", "cfg x=1 | T0: spawn 1; st 0 1 rlx; join 1; ld 0 rlx | T1: swap 0 2 rlx",
+             "ok 0:0=- 0:1=- 0:2=- 0:3=v:2 1:0=v:0", "rc11-doc")]),
+ "F16": dict(cls="seqcst-load-pruning",
+   what="a SeqCst load is never offered a SeqCst store once a clock-newer SeqCst store exists, although SeqCst accesses are documented to behave as acquire/release: an RC11-allowed outcome is never explored (rt/atomic.rs match_load_to_stores)",
+   entries=[("C02", "missing", "cfg x=2 | T0: spawn 1; st 0 1 sc; st 0 2 sc; st 1 1 rlx; join 1 | T1: ld 1 rlx; ld 0 sc",
+             "ok 0:0=- 0:1=- 0:2=- 0:3=- 0:4=- 1:0=v:1 1:1=v:1", "rc11-strong")]),
  "F5": dict(cls="unpark-misdirected",
    what="unpark of a thread blocked in join/lock makes it runnable and loom's internal assertion fires (Thread::set_unparked wakes any blocked thread, rt/thread.rs)",
    entries=[(p, "badverdict", "cfg  | T0: spawn 1; join 1 | T1: unpark 0", "notNotified") for p in ("C01", "C05", "C08")] +
@@ -32,7 +50,9 @@ F = {
              "ok 0:0=- 0:1=v:5 0:2=- 0:3=- 1:0=-") for p in ("C01", "C09")] +
            [("C09", "missed_failure", "cfg q=1 | T0: spawn 1; send 0 1; send 0 2; join 1 | T1: recv 0; droprx 0", "leak"),
             ("C10", "missed_failure", "cfg q=1 | T0: spawn 1; send 0 1; send 0 2; join 1 | T1: recv 0; droprx 0", "leak"),
-            ("C01", "missed_failure", "cfg q=1 | T0: spawn 1; send 0 1; send 0 2; join 1 | T1: recv 0; droprx 0", "leak")]),
+            ("C01", "missed_failure", "cfg q=1 | T0: spawn 1; send 0 1; send 0 2; join 1 | T1: recv 0; droprx 0", "leak"),
+            ("C04", "missed_failure", "cfg q=1 c=1 | T0: spawn 1; cwr 0 5; send 0 1; join 1 | T1: tryrecv 0; crd 0; droprx 0", "causality"),
+            ("C05", "missed_failure", "cfg q=1 | T0: spawn 1; tryrecv 0; recv 0; join 1; droprx 0 | T1: send 0 1", "deadlock")]),
  "F9": dict(cls="try-acquire-blocked",
    what="a thread pending on try_lock/try_read/try_write is blocked when another thread acquires the lock, so the failing try is never explored and a false deadlock can be reported (Mutex::post_acquire, RwLock::post_acquire_*)",
    entries=[(p, "missing", "cfg m=1 | T0: spawn 1; trylock 0; ifeq 1 v:1 1; unlock 0; join 1 | T1: lock 0; unlock 0",
@@ -42,6 +62,9 @@ F = {
    what="strong_count/get_mut never observe a concurrent drop or clone: RefDec does not depend on an earlier Inspect (rt/arc.rs last_dependent_access)",
    entries=[(p, "missing", "cfg  | T0: anew 0; aclone 0 1; spawn 1; acount 0; adrop 0; join 1 | T1: adrop 1",
              "ok 0:0=- 0:1=- 0:2=- 0:3=v:1 0:4=v:1 0:5=- 1:0=v:0") for p in ("C01", "C11")]),
+ "F12": dict(cls="raw-alloc-leak-abort",
+   what="a leaked loom::alloc::alloc block aborts the process (panic in a destructor while the failing iteration unwinds: the raw_allocations map is dropped outside the model) instead of the 'Allocation leaked' panic",
+   entries=[(p, "abort", "cfg  | T0: alloc 0", "abort") for p in ("C10", "C06")]),
  "F15": dict(cls="condvar-stale-token",
    what="a pending park token makes Condvar::wait return without a notification (rt/condvar.rs wait parks through rt::park)",
    entries=[(p, "forbidden", "cfg c=1 m=1 v=1 | T0: spawn 1; lock 0; cwr 0 1; unlock 0; cvone 0; join 1 | T1: unpark 1; lock 0; cvwait 0 0; crd 0; unlock 0",
@@ -57,9 +80,13 @@ F = {
 def main():
     lines = [HEADER]
     for fid, f in F.items():
-        for prop, kind, witness, outcome in f["entries"]:
-            lines.append("finding: " + json.dumps({"property": prop, "id": fid, "class": f["cls"], "kind": kind,
-                                                    "witness": witness, "outcome": outcome, "what": fid + " " + f["what"]}))
+        for e in f["entries"]:
+            prop, kind, witness, outcome = e[:4]
+            d = {"property": prop, "id": fid, "class": f["cls"], "kind": kind, "witness": witness,
+                 "outcome": outcome, "what": fid + " " + f["what"]}
+            if len(e) > 4:
+                d["oracle"] = e[4]
+            lines.append("finding: " + json.dumps(d))
     open(os.path.join(VERIF, "known_findings.txt"), "w").write("\n".join(lines) + "\n")
 
 main()
